@@ -1005,7 +1005,16 @@ func CheckStrand(loc Location) Strand {
 	case Ordered:
 		return checkStrand(v)
 	case Complemented:
-		return StrandReverse
+		// The complement of a location lies on the opposite strand of
+		// whatever the location itself lies on.
+		switch CheckStrand(v.Location) {
+		case StrandForward:
+			return StrandReverse
+		case StrandReverse:
+			return StrandForward
+		default:
+			return StrandBoth
+		}
 	default:
 		return StrandForward
 	}
